@@ -17,10 +17,14 @@ import Chrono.Proofs.StrftimeL
 import Chrono.Proofs.FormatIsoL
 import Chrono.Proofs.FormatRfcL
 import Chrono.Extracted.SpecTable
+import Chrono.Extracted.DocTable
+import Chrono.Proofs.StrftimeDocL
+import Chrono.Proofs.StrftimeAppendL
+import Chrono.Model.ParseFrom
 
 namespace Chrono.Props.C12
 open Chrono Chrono.M Chrono.M.Format Chrono.M.Strftime Chrono.Spec Chrono.Spec.Strftime Chrono.Extracted
-open Chrono.Proofs
+open Chrono.Proofs Chrono.Spec.StrftimeDoc Chrono.M.ParseFrom
 
 /-! ### the specifier table is the one in the source -/
 
@@ -331,5 +335,370 @@ example :
     formatItems (some d) (some t) off (items (str "%Q")) = none ∧
     items (str "%-D") = [Item.error, .literal [47], .numeric .day .zero, .literal [47], .numeric .yearMod100 .zero] := by
   decide +kernel
+
+/-! ### the documentation table: specifier TEXT → documented text (audit gap HIGH-1) -/
+
+/-- the Spec's transcription of the documentation (`docRows`: specifier, example cell, description cell,
+each with its formal reading) is character for character the table that the translator reads from the
+module doc comment of strftime.rs on this run — rows, order, examples, sentences; likewise the
+padding-modifier table; the documentation's own "Same as `…`." sentences (and footnote 5 for `%+`)
+are among the readings; the older name list `documented` is the first column -/
+theorem doc_table_is_source :
+    DOC_TABLE = docRows.map (fun r => (r.spec, r.ex, r.descr)) ∧
+    DOC_MODIFIERS.map (fun m => (str m.1, m.2)) = docModifiers.map (fun m => ([m.1], m.2.2)) ∧
+    (∀ e ∈ DOC_SAME_AS, e ∈ docComposites ∨ e ∈ expansions ∨ e = ("%+", "%Y-%m-%dT%H:%M:%S%.f%:z")) ∧
+    (∀ e ∈ docComposites, e ∈ expansions) ∧
+    documented = docRows.map (·.spec) := by decide +kernel
+
+/-- **the tokenizer gives every documented specifier TEXT the item of its documentation row**:
+`items "%m" = [Numeric Month, zero-padded]`, `items "%e" = [Day, space-padded]`, `%P` lower / `%p`
+upper, `%U` Sunday / `%W` Monday, `%.3f` …; a composite row yields exactly the items of the format
+string it is documented to be the same as (none of them `Item::Error`).  Exchanging two arms of
+`parse_next_item` breaks this theorem (the Spec side does not move with the source). -/
+theorem documented_items :
+    (∀ e ∈ docTable, items (37 :: str e.1) = [e.2]) ∧
+    (∀ e ∈ docComposites, items (str e.1) = items (str e.2) ∧ Item.error ∉ items (str e.2)) := by
+  decide +kernel
+
+/-- **`%<specifier>` prints the documented text** — the statement is about the format string, not
+about an item: for every row of the documentation table that describes one field (all but the nine
+composites, which `documented_items`/`composite_eq_expansion` reduce to these), every date of the
+range, every time incl. leap seconds, every offset: formatting a zone-aware value with the
+two-to-five-byte format string `%…` gives exactly `renderItem` of the row's reading (`renderNumeric`,
+`renderFixed`, `zoneText` for `%Z`, `rfc3339Text` for `%+`; failure for the parsing-only `%#z`).
+`%y`/`%g` as in the property for years ≥ 0 (the hypotheses are not used: the text is `year mod 100`
+with floor semantics on every year, which is what footnote 1 says and its example contradicts). -/
+theorem specifier_ok (e : String × Item) (he : e ∈ docTable)
+    (y : Int) (o : Nat) (hy : MIN_YEAR ≤ y ∧ y ≤ MAX_YEAR) (ho : 1 ≤ o ∧ o ≤ yearLen y)
+    (t : Time) (ht : TValid t) (off : Int) (hoff : -86400 < off ∧ off < 86400)
+    (_h1 : e.1 = "y" → 0 ≤ y) (_h2 : e.1 = "g" → 0 ≤ isoYear y o) :
+    formatItems (some (dateOfYo y o)) (some t) (some (fixedOffsetName off, off)) (items (37 :: str e.1)) =
+      renderItem e.2 y o t off := by
+  have hne : ∀ e ∈ docTable, e.2 ≠ Item.fixed .rfc2822 := by decide
+  rw [documented_items.1 e he]
+  unfold formatItems
+  rw [StrftimeDoc.single]
+  have := StrftimeDoc.item_on y o hy ho t ht off hoff ⟨true, true, true⟩ e.2 (hne e he)
+  simp only [StrftimeDoc.dOf, StrftimeDoc.tOf, StrftimeDoc.oOf, if_true] at this
+  rw [this]
+  rw [StrftimeDoc.renderItemOn_full]
+  cases renderItem e.2 y o t off <;> rfl
+
+/-- **padding modifiers** (`%-?`, `%_?`, `%0?` of the documentation's modifier table): in front of a
+numeric specifier the modifier replaces the padding and nothing else — items and text; in front of
+any other documented specifier (names, am/pm, fractions, offsets, `%+`, `%t %n %%`, composites) the
+result is `Item::Error` ("This is not allowed for other specifiers and will result in the
+`BAD_FORMAT` error") -/
+theorem specifier_pad_ok :
+    (∀ e ∈ docTable, ∀ m ∈ docModifiers, ∀ n p, e.2 = Item.numeric n p →
+      items (37 :: m.1 :: str e.1) = [Item.numeric n m.2.1] ∧
+      ∀ (y : Int) (o : Nat), MIN_YEAR ≤ y ∧ y ≤ MAX_YEAR → 1 ≤ o ∧ o ≤ yearLen y →
+      ∀ (t : Time), TValid t → ∀ (off : Int), -86400 < off ∧ off < 86400 →
+        formatItems (some (dateOfYo y o)) (some t) (some (fixedOffsetName off, off)) (items (37 :: m.1 :: str e.1)) =
+          some (renderNumeric n m.2.1 y o t off)) ∧
+    (∀ e ∈ docTable, ∀ m ∈ docModifiers, (∀ n p, e.2 ≠ Item.numeric n p) →
+      Item.error ∈ items (37 :: m.1 :: str e.1)) ∧
+    (∀ e ∈ docComposites, ∀ m ∈ docModifiers, Item.error ∈ items (37 :: m.1 :: (str e.1).tail)) := by
+  have key : ∀ e ∈ docTable, ∀ m ∈ docModifiers,
+      (match e.2 with
+       | .numeric n _ => decide (items (37 :: m.1 :: str e.1) = [Item.numeric n m.2.1])
+       | _ => decide (Item.error ∈ items (37 :: m.1 :: str e.1))) = true := by decide +kernel
+  refine ⟨fun e he m hm n p hn => ?_, fun e he m hm hn => ?_, by decide +kernel⟩
+  · have k := key e he m hm
+    rw [hn] at k
+    have hi : items (37 :: m.1 :: str e.1) = [Item.numeric n m.2.1] := of_decide_eq_true k
+    refine ⟨hi, fun y o hy ho t ht off hoff => ?_⟩
+    rw [hi]
+    unfold formatItems
+    rw [StrftimeDoc.single]
+    have := StrftimeDoc.item_on y o hy ho t ht off hoff ⟨true, true, true⟩ (.numeric n m.2.1) (by simp)
+    simp only [StrftimeDoc.dOf, StrftimeDoc.tOf, StrftimeDoc.oOf, if_true] at this
+    rw [this, StrftimeDoc.renderItemOn_full]
+    rfl
+  · have k := key e he m hm
+    cases h : e.2 with
+    | numeric n p => exact absurd h (hn n p)
+    | literal s => rw [h] at k; exact of_decide_eq_true k
+    | space s => rw [h] at k; exact of_decide_eq_true k
+    | fixed f => rw [h] at k; exact of_decide_eq_true k
+    | error => rw [h] at k; exact of_decide_eq_true k
+
+/-- **the Example column** of the documentation, evaluated: for the documentation's example value
+2001-07-08T00:34:60.026490+09:30 every row's specifier prints exactly its example cell — except the
+rows listed in `exampleDivergent` (and the parsing-only `%#z`, and `%t %n %%` whose cell is empty).
+`_partial`: the full statement "every example cell is what formatting prints" is FALSE on the crate,
+see `doc_examples_divergent`. -/
+theorem doc_examples_partial :
+    ∀ r ∈ docRows, r.ex ≠ "" → r.spec ∉ exampleDivergent.map (·.1) → r.spec ∉ exampleParsingOnly →
+      formatItems (some (dateOfYo exYear exOrdinal)) (some exTime) (some (fixedOffsetName exOff, exOff))
+        (items (37 :: str r.spec)) = some (str r.ex) := by decide +kernel
+
+/-- **documentation examples that are not what the crate prints** (kernel-evaluated on the model,
+confirmed on the crate): `%q` example `1`, prints `3` (July); `%U` example `28`, prints `27` (the
+description and footnote 2 give 27: 2001-07-08 is the 27th Sunday of 2001); `%f` example `26490000`,
+prints `026490000` (nine digits, zero padded; footnote 7's `7000` for 7 µs is `000007000`); `%Z`
+example `ACST`, prints the offset `+09:30` (footnote 8 says so); `%#z` cannot be formatted. -/
+theorem doc_examples_divergent :
+    (∀ x ∈ exampleDivergent, ∃ r ∈ docRows, r.spec = x.1 ∧ r.ex ≠ x.2 ∧
+      formatItems (some (dateOfYo exYear exOrdinal)) (some exTime) (some (fixedOffsetName exOff, exOff))
+        (items (37 :: str x.1)) = some (str x.2)) ∧
+    formatItems (some (dateOfYo exYear exOrdinal)) (some exTime) (some (fixedOffsetName exOff, exOff))
+      (items (str "%#z")) = none ∧
+    formatItems none (some ⟨0, 7000⟩) none (items (str "%f %.f")) = some (str "000007000 .000007") := by
+  refine ⟨?_, by decide +kernel, by decide +kernel⟩
+  intro x hx
+  simp only [exampleDivergent, List.mem_cons, List.mem_nil_iff, or_false] at hx
+  rcases hx with rfl | rfl | rfl | rfl
+  · exact ⟨docRows[3], by decide +kernel, by decide +kernel⟩
+  · exact ⟨docRows[14], by decide +kernel, by decide +kernel⟩
+  · exact ⟨docRows[32], by decide +kernel, by decide +kernel⟩
+  · exact ⟨docRows[44], by decide +kernel, by decide +kernel⟩
+
+
+/-! ### the entry points `NaiveDate / NaiveTime / NaiveDateTime / DateTime ::format` (audit gap MEDIUM-3) -/
+
+/-- **`value.format(fmt)` for each of the four types** (`ParseFrom.format`, the model of
+`format_with_items(StrftimeItems::new(fmt))` written into a `String`, compared with the crate by C13's
+`pf.f` / `pf.rt` ops): a `NaiveDate` is shown with the date view only, a `NaiveTime` with
+the time view only, a `NaiveDateTime` with both, a `DateTime` through its wall clock
+(`overflowing_naive_local`) with its offset, the zone name being the offset's `Display`.  The result is
+the concatenation of the documented texts of the items of `fmt` (`renderItemsOn`), and
+`Err(fmt::Error)` as soon as one item reads a view the type does not have (e.g. `%H` on a `NaiveDate`,
+`%z` on a `NaiveDateTime`) — never a panic, never other text.  `%s` on a `NaiveDateTime` counts from
+UTC.  (`hf`: the RFC 2822 item is not produced by any specifier; it is decidable for a given `fmt`
+and holds for every string of `format_string_items`.) -/
+theorem entry_points_ok (fmt : List Nat) (hf : Item.fixed .rfc2822 ∉ items fmt)
+    (Y : Int) (o : Nat) (hY : MIN_YEAR ≤ Y ∧ Y ≤ MAX_YEAR) (ho : 1 ≤ o ∧ o ≤ yearLen Y) (t : Time) (ht : TValid t)
+    (off : Int) (hoff : -86400 < off ∧ off < 86400) :
+    ParseFrom.format (.date (dateOfYo Y o)) fmt = (renderItemsOn dateViews (items fmt) Y o t off).elim werr wok ∧
+    ParseFrom.format (.time t) fmt = (renderItemsOn timeViews (items fmt) Y o t off).elim werr wok ∧
+    ParseFrom.format (.naive ⟨dateOfYo Y o, t⟩) fmt = (renderItemsOn naiveViews (items fmt) Y o t off).elim werr wok ∧
+    (∀ z : Zoned, z.overflowing_naive_local = .ok ⟨dateOfYo Y o, t⟩ → z.off = off →
+      ParseFrom.format (.zoned z) fmt = (renderItemsOn zonedViews (items fmt) Y o t off).elim werr wok) := by
+  have h := fun hv => StrftimeDoc.items_on Y o hY ho t ht off hoff hv (items fmt) hf
+  refine ⟨?_, ?_, ?_, fun z hl hz => ?_⟩
+  · rw [← StrftimeDoc.toW_elim, ← h dateViews]; rfl
+  · rw [← StrftimeDoc.toW_elim, ← h timeViews]; rfl
+  · rw [← StrftimeDoc.toW_elim, ← h naiveViews]; rfl
+  · rw [← StrftimeDoc.toW_elim, ← h zonedViews]
+    simp only [ParseFrom.format, formatItemsOf, hl, hz, W.ofRes]; rfl
+
+/-- **one documented specifier on each type, and which specifiers each type can print**: the text is
+`renderItemOn`; the specifiers a `NaiveDate` prints are exactly the DATE SPECIFIERS (and `%t %n %%`),
+a `NaiveTime` the TIME SPECIFIERS, a `NaiveDateTime` both plus `%s`, a `DateTime` everything except
+the parsing-only `%#z`; every other documented specifier fails on that type -/
+theorem entry_point_specifier (e : String × Item) (he : e ∈ docTable)
+    (Y : Int) (o : Nat) (hY : MIN_YEAR ≤ Y ∧ Y ≤ MAX_YEAR) (ho : 1 ≤ o ∧ o ≤ yearLen Y) (t : Time) (ht : TValid t)
+    (off : Int) (hoff : -86400 < off ∧ off < 86400) :
+    (ParseFrom.format (.date (dateOfYo Y o)) (37 :: str e.1) = (renderItemOn dateViews e.2 Y o t off).elim werr wok ∧
+     ParseFrom.format (.time t) (37 :: str e.1) = (renderItemOn timeViews e.2 Y o t off).elim werr wok ∧
+     ParseFrom.format (.naive ⟨dateOfYo Y o, t⟩) (37 :: str e.1) = (renderItemOn naiveViews e.2 Y o t off).elim werr wok ∧
+     (∀ z : Zoned, z.overflowing_naive_local = .ok ⟨dateOfYo Y o, t⟩ → z.off = off →
+       ParseFrom.format (.zoned z) (37 :: str e.1) = (renderItemOn zonedViews e.2 Y o t off).elim werr wok)) ∧
+    ((renderItemOn dateViews e.2 Y o t off).isSome ↔
+       e.1 ∈ ["Y", "C", "y", "q", "m", "b", "B", "h", "d", "e", "a", "A", "w", "u", "U", "W", "G", "g", "V", "j", "t", "n", "%"]) ∧
+    ((renderItemOn timeViews e.2 Y o t off).isSome ↔
+       e.1 ∈ ["H", "k", "I", "l", "P", "p", "M", "S", "f", ".f", ".3f", ".6f", ".9f", "3f", "6f", "9f", "t", "n", "%"]) ∧
+    ((renderItemOn naiveViews e.2 Y o t off).isSome ↔ e.1 ∉ ["Z", "z", ":z", "::z", ":::z", "#z", "+"]) ∧
+    ((renderItemOn zonedViews e.2 Y o t off).isSome ↔ e.1 ≠ "#z") := by
+  have hne : ∀ e ∈ docTable, e.2 ≠ Item.fixed .rfc2822 := by decide
+  have h := fun hv => StrftimeDoc.item_on Y o hY ho t ht off hoff hv e.2 (hne e he)
+  refine ⟨⟨?_, ?_, ?_, fun z hl hz => ?_⟩, ?_⟩
+  · rw [← StrftimeDoc.toW_elim, ← h dateViews]
+    unfold ParseFrom.format
+    rw [documented_items.1 e he]
+    exact StrftimeDoc.single _ _ _ _
+  · rw [← StrftimeDoc.toW_elim, ← h timeViews]
+    unfold ParseFrom.format
+    rw [documented_items.1 e he]
+    exact StrftimeDoc.single _ _ _ _
+  · rw [← StrftimeDoc.toW_elim, ← h naiveViews]
+    unfold ParseFrom.format
+    rw [documented_items.1 e he]
+    exact StrftimeDoc.single _ _ _ _
+  · rw [← StrftimeDoc.toW_elim, ← h zonedViews]
+    simp only [ParseFrom.format, formatItemsOf, hl, hz, W.ofRes, documented_items.1 e he]
+    exact StrftimeDoc.single _ _ _ _
+  · have key : ∀ e ∈ docTable,
+        ((viewsOf e.2).le dateViews = true ↔
+          e.1 ∈ ["Y", "C", "y", "q", "m", "b", "B", "h", "d", "e", "a", "A", "w", "u", "U", "W", "G", "g", "V", "j", "t", "n", "%"]) ∧
+        ((viewsOf e.2).le timeViews = true ↔
+          e.1 ∈ ["H", "k", "I", "l", "P", "p", "M", "S", "f", ".f", ".3f", ".6f", ".9f", "3f", "6f", "9f", "t", "n", "%"]) ∧
+        ((viewsOf e.2).le naiveViews = true ↔ e.1 ∉ ["Z", "z", ":z", "::z", ":::z", "#z", "+"]) ∧
+        ((viewsOf e.2).le zonedViews = true ∧ e.2 ≠ .fixed .timezoneOffsetPermissive ↔ e.1 ≠ "#z") ∧
+        (e.2 = .fixed .timezoneOffsetPermissive → (viewsOf e.2).le dateViews = false ∧
+          (viewsOf e.2).le timeViews = false ∧ (viewsOf e.2).le naiveViews = false) ∧ e.2 ≠ .error := by
+      decide +kernel
+    obtain ⟨k1, k2, k3, k4, k5, k6⟩ := key e he
+    have some_iff : ∀ hv : Views, (renderItemOn hv e.2 Y o t off).isSome ↔
+        ((viewsOf e.2).le hv = true ∧ e.2 ≠ .fixed .timezoneOffsetPermissive) := by
+      intro hv
+      unfold renderItemOn
+      cases hle : (viewsOf e.2).le hv
+      · simp
+      · simp only [if_true, true_and]
+        cases h2 : e.2 with
+        | literal s => simp [renderItem]
+        | space s => simp [renderItem]
+        | numeric n p => simp [renderItem]
+        | error => exact absurd h2 k6
+        | fixed f =>
+          have : f ≠ .rfc2822 := fun hh => hne e he (by rw [h2, hh])
+          cases f <;> simp [renderItem, renderFixed] <;> exact absurd rfl this
+    refine ⟨?_, ?_, ?_, ?_⟩
+    · rw [some_iff, ← k1]
+      constructor
+      · exact fun h => h.1
+      · intro h; exact ⟨h, fun hp => by rw [(k5 hp).1] at h; cases h⟩
+    · rw [some_iff, ← k2]
+      constructor
+      · exact fun h => h.1
+      · intro h; exact ⟨h, fun hp => by rw [(k5 hp).2.1] at h; cases h⟩
+    · rw [some_iff, ← k3]
+      constructor
+      · exact fun h => h.1
+      · intro h; exact ⟨h, fun hp => by rw [(k5 hp).2.2] at h; cases h⟩
+    · rw [some_iff, ← k4]
+
+
+/-- non-vacuity of the documentation-table and entry-point families: the table has 47 single-item rows
+and 9 composite rows; `%m`, `%e`, `%-j`, `%_j` as TEXT on 2001-01-12; a `NaiveDate` prints `%j` and
+fails on `%H`; a `NaiveDateTime` prints `%s` from UTC and fails on `%z`; a `DateTime` whose hypotheses
+are met (2024-01-31T23:59:50 UTC at +00:00:17 reads 2024-02-01T00:00:07) -/
+example :
+    docTable.length = 47 ∧ docComposites.length = 9 ∧ ("m", Item.numeric .month .zero) ∈ docTable ∧
+    ("e", Item.numeric .day .space) ∈ docTable ∧
+    renderItem (.numeric .day .space) 2001 12 ⟨0, 0⟩ 0 = str "12" ∧
+    renderNumeric .ordinal .none 2001 12 ⟨0, 0⟩ 0 = str "12" ∧ renderNumeric .ordinal .space 2001 12 ⟨0, 0⟩ 0 = str " 12" ∧
+    ParseFrom.format (.date (dateOfYo 2001 12)) (str "%j") = wok (str "012") ∧
+    ParseFrom.format (.date (dateOfYo 2001 12)) (str "%H") = werr ∧
+    ParseFrom.format (.naive ⟨dateOfYo 2001 189, ⟨2099, 1026490000⟩⟩) (str "%s") = wok (str "994552499") ∧
+    ParseFrom.format (.naive ⟨dateOfYo 2001 189, ⟨2099, 0⟩⟩) (str "%z") = werr ∧
+    Zoned.overflowing_naive_local ⟨⟨dateOfYo 2024 31, ⟨86390, 0⟩⟩, 17⟩ = .ok ⟨dateOfYo 2024 32, ⟨7, 0⟩⟩ ∧
+    ParseFrom.format (.zoned ⟨⟨dateOfYo 2024 31, ⟨86390, 0⟩⟩, 17⟩) (str "%F %T %Z") =
+      wok (str "2024-02-01 00:00:07 +00:00:17") ∧
+    renderItemsOn zonedViews (items (str "%F %T %Z")) 2024 32 ⟨7, 0⟩ 17 = some (str "2024-02-01 00:00:07 +00:00:17") := by
+  decide +kernel
+
+
+/-! ### whole format strings (audit gap MEDIUM-2) and unknown specifiers (audit gap MEDIUM-4) -/
+
+/-- **the tokenizer on `specifier ++ rest`**: for every complete documented specifier text `a`
+(`specTexts`: `%` + a row of the table, or `%` + padding modifier + a numeric row; 125 strings) and
+EVERY continuation `b`, the items are those of `a` followed by those of `b`, and so the text is the
+text of `a` followed by the text of `b` (same failure, same panic) -/
+theorem items_append (a b : List Nat) (ha : a ∈ specTexts) :
+    items (a ++ b) = items a ++ items b ∧
+    ∀ d t off, formatItemsR d t off (items (a ++ b)) =
+      (formatItemsR d t off (items a)).seq (formatItemsR d t off (items b)) := by
+  have h := StrftimeAppend.items_append a b ha
+  exact ⟨h, fun d t off => by rw [h, FormatL.formatItemsR_append]⟩
+
+/-- **format strings built from the documented specifiers**: a string that is any sequence of
+complete specifier texts followed by `%`-free text `lit` tokenizes specifier by specifier, its text is
+the concatenation of the specifier texts (each given by `specifier_ok` / `composite_eq_expansion`)
+followed by `lit` unchanged, and no item is the RFC 2822 item (the hypothesis of `entry_points_ok`).
+`_partial`: literal text BETWEEN two specifiers is not covered (only text after the last one; `%t %n
+%%` and the composites do carry separators) — that needs the alignment of the literal / white-space
+run scanners with the `%` that ends the run, which is not proved; the harness compares such strings
+(oracle "text of a format string is not the concatenation of its items"). -/
+theorem format_string_partial (chunks : List (List Nat)) (hc : ∀ a ∈ chunks, a ∈ specTexts)
+    (lit : List Nat) (hl : ∀ b ∈ lit, b ≠ 37) :
+    items (chunks.flatten ++ lit) = (chunks.map items).flatten ++ items lit ∧
+    (∀ d t off, formatItemsR d t off (items (chunks.flatten ++ lit)) =
+      chunks.foldr (fun a acc => (formatItemsR d t off (items a)).seq acc) (wok lit)) ∧
+    Item.fixed .rfc2822 ∉ items chunks.flatten := by
+  have h1 := StrftimeAppend.items_flatten chunks hc lit
+  refine ⟨h1, fun d t off => ?_, ?_⟩
+  · rw [h1]
+    have hlit : formatItemsR d t off (items lit) = wok lit := by
+      unfold items
+      exact FormatL.literal_copied_aux false d t off _ lit (by omega) hl
+    clear h1
+    induction chunks with
+    | nil => simpa using hlit
+    | cons a rest ih =>
+      simp only [List.map_cons, List.flatten_cons, List.append_assoc, List.foldr_cons]
+      rw [FormatL.formatItemsR_append, ih (fun x hx => hc x (List.mem_cons_of_mem _ hx))]
+  · have h0 := StrftimeAppend.items_flatten chunks hc []
+    rw [List.append_nil] at h0
+    rw [h0]
+    have key : ∀ a ∈ StrftimeAppend.specTextsLit, Item.fixed .rfc2822 ∉ items a := by decide +kernel
+    intro hmem
+    rw [show items [] = [] from rfl, List.append_nil, List.mem_flatten] at hmem
+    obtain ⟨l, hl1, hl2⟩ := hmem
+    rw [List.mem_map] at hl1
+    obtain ⟨a, ha, rfl⟩ := hl1
+    exact key a (by rw [← StrftimeAppend.specTexts_eq]; exact hc a ha) hl2
+
+/-- **an unknown or malformed specifier makes formatting fail, wherever it stands** (strict mode,
+the mode of every `format` method):
+(1) a byte after `%` that has no arm and is not a modifier or one of `z : . 3 6 9` — every
+undocumented letter and EVERY non-ASCII lead byte (any value ≥ 123) — turns the whole rest of the
+string into one `Item::Error`, whatever follows;
+(2) the same behind a padding modifier (`%-Q…`, `%0é…`);
+(3) exhaustively over all byte values: the truncated specifiers (`%`, `%-`, `%.`, `%.3`, `%:`, `%::`,
+`%#` … at the end of the string) and every one-byte continuation of `%`, `%-` `%0` `%_` `%#`, `%.`,
+`%.3 %.6 %.9`, `%3 %6 %9`, `%:`, `%::`, `%:::` start with `Item::Error` unless the bytes are one of the
+documented specifier texts — in particular a padding modifier on a non-numeric or composite specifier
+(`%-a`, `%0Z`, `%-D`, `%_%`) and `#` on anything but `z`;
+(4) after any sequence of complete specifiers the error is still there and nothing is formatted. -/
+theorem unknown_fails :
+    (∀ c rest, specTable c = none → c ∉ [45, 48, 95, 35, 122, 58, 46, 51, 54, 57] →
+      items (37 :: c :: rest) = [Item.error]) ∧
+    (∀ c rest, 123 ≤ c → items (37 :: c :: rest) = [Item.error]) ∧
+    (∀ m ∈ [45, 48, 95], ∀ c rest, (specTable c = none ∧ c ∉ [122, 58, 46, 51, 54, 57] ∨ 123 ≤ c) →
+      items (37 :: m :: c :: rest) = [Item.error]) ∧
+    ((∀ a ∈ [[37], [37, 45], [37, 48], [37, 95], [37, 35], [37, 46], [37, 51], [37, 54], [37, 57], [37, 46, 51],
+            [37, 46, 54], [37, 46, 57], [37, 58], [37, 58, 58], [37, 58, 58, 58], [37, 45, 46], [37, 35, 58],
+            [37, 45, 51], [37, 45, 58]],
+      (items a).head? = some Item.error) ∧
+     (∀ c < 256, items [37, c] = [Item.error] ∨ [37, c] ∈ specTexts) ∧
+     (∀ m ∈ [45, 48, 95, 35], ∀ c < 256, (items [37, m, c]).head? = some Item.error ∨ [37, m, c] ∈ specTexts) ∧
+     (∀ c < 256, (items [37, 46, c]).head? = some Item.error ∨ [37, 46, c] ∈ specTexts) ∧
+     (∀ d ∈ [51, 54, 57], ∀ c < 256,
+       ((items [37, 46, d, c]).head? = some Item.error ∨ [37, 46, d, c] ∈ specTexts) ∧
+       ((items [37, d, c]).head? = some Item.error ∨ [37, d, c] ∈ specTexts)) ∧
+     (∀ c < 256, (items [37, 58, c]).head? = some Item.error ∨ [37, 58, c] ∈ specTexts) ∧
+     (∀ c < 256, (items [37, 58, 58, c]).head? = some Item.error ∨ [37, 58, 58, c] ∈ specTexts) ∧
+     (∀ c < 256, (items [37, 58, 58, 58, c]).head? = some Item.error ∨ [37, 58, 58, 58, c] ∈ specTexts)) ∧
+    (∀ (chunks : List (List Nat)), (∀ a ∈ chunks, a ∈ specTexts) → ∀ bad, Item.error ∈ items bad →
+      ∀ d t off, Item.error ∈ items (chunks.flatten ++ bad) ∧
+        formatItems d t off (items (chunks.flatten ++ bad)) = none) := by
+  have hbig : ∀ c, 123 ≤ c → specTable c = none ∧ c ∉ [45, 48, 95, 35, 122, 58, 46, 51, 54, 57] := by
+    intro c hc
+    refine ⟨StrftimeAppend.specTable_none_of_gt c (by omega), ?_⟩
+    simp only [List.mem_cons, List.mem_nil_iff, or_false, not_or]
+    omega
+  refine ⟨fun c rest hs hc => StrftimeAppend.unknown_letter c rest hs hc,
+    fun c rest hc => StrftimeAppend.unknown_letter c rest (hbig c hc).1 (hbig c hc).2, ?_, ?_, ?_⟩
+  · intro m hm c rest h
+    rcases h with ⟨hs, hc⟩ | hc
+    · exact StrftimeAppend.unknown_after_modifier m c rest hm hs hc
+    · refine StrftimeAppend.unknown_after_modifier m c rest hm (hbig c hc).1 ?_
+      simp only [List.mem_cons, List.mem_nil_iff, or_false, not_or]
+      omega
+  · rw [StrftimeAppend.specTexts_eq]
+    exact StrftimeAppend.unknown_fin
+  · intro chunks hc bad hb d t off
+    have h := StrftimeAppend.items_flatten chunks hc bad
+    have hm : Item.error ∈ items (chunks.flatten ++ bad) := by
+      rw [h]; exact List.mem_append_right _ hb
+    exact ⟨hm, FormatL.formatItems_error d t off _ hm⟩
+
+/-- non-vacuity: `%Y-%m-%d` is not in the chunk grammar (literal `-` between specifiers) but
+`%Y%m%d`, `%F%t%T%n%-j%%` followed by trailing text are; `%-D`, `%0Z`, `%.3x`, `%é`, `%-é` fail, also
+after `%Y%m` -/
+example :
+    [str "%F", str "%t", str "%T", str "%n", str "%-j", str "%%"].all (· ∈ specTexts) = true ∧
+    items ([str "%F", str "%t", str "%T", str "%n", str "%-j", str "%%"].flatten ++ str " ok") =
+      ([str "%F", str "%t", str "%T", str "%n", str "%-j", str "%%"].map items).flatten ++ items (str " ok") ∧
+    formatItems (some (dateOfYo 2001 12)) (some ⟨2099, 0⟩) none (items (str "%F%t%T%n%-j%% ok")) =
+      some (str "2001-01-12\t00:34:59\n12% ok") ∧
+    items (str "%é") = [Item.error] ∧ items (str "%-é") = [Item.error] ∧ items (str "%.3x") = [Item.error] ∧
+    Item.error ∈ items (str "%Y%m%0Z") ∧ specTable 81 = none ∧
+    formatItems (some (dateOfYo 2001 12)) (some ⟨2099, 0⟩) none (items (str "%Y%m%-D")) = none := by
+  decide +kernel
+
 
 end Chrono.Props.C12
